@@ -22,7 +22,8 @@ with open("/verif/seeded/INDEX.md", "w") as fh:
     fh.write("# Seeded breaking changes and which checks catch them\n\n")
     fh.write("Every entry was produced by a fresh sub-agent that saw only the property text and a scratch worktree (or is the revert of a `fix:` commit), "
              "confirmed by `bin/seedeval.py` (applies, builds with and without the tag, demonstration fails with the change and passes without), and then run against the checks "
-             "with the patch applied to /repo (undone afterwards).\n\n")
+             "from a scratch copy of /verif whose harness is built against a scratch checkout of /repo carrying the patch (round 1 was evaluated with the patch applied to /repo itself and undone afterwards). "
+             "`-agent-` = first round, `-agent2-` = second round (the authors were told which sites the first round had used).\n\n")
     fh.write("| name | property | what it is (from the author's notes) | confirmation | checks |\n|---|---|---|---|---|\n")
     for r in rows:
         fh.write("| %s | %s | %s | %s | %s |\n" % tuple(str(x).replace("|", "/").replace("\n", " ") for x in r))
